@@ -1,7 +1,8 @@
 """C11 -- player registry stays unique and consistent under any login/logout interleaving.
 
-1. TLC model-checks the code-shaped PlayerRegistryImpl.tla (muP respected, 3 connections
-   over 2 UUIDs x 2 lower-cased names, kick mode on/off, leave / LoginEvent-denial flags)
+1. TLC model-checks the code-shaped PlayerRegistryImpl.tla (muP respected; 2 connections in
+   quick, 3 in thorough, over 2 UUIDs x 2 lower-cased names, kick mode on/off, online/offline,
+   leave / LoginEvent-denial flags)
    against the property invariants, and the abstract acceptor PlayerRegistry.tla against
    the same invariants.  Non-vacuity: the lock-ignoring variant and the two variants that
    model the defects fixed in /repo (delete-by-key unregister, lock leak on the duplicate
@@ -108,13 +109,13 @@ def run(ctx):
         return res
 
     if ctx.quick:
-        s2 = export("PlayerRegistryImpl_sched2.cfg", "tlc-locked", simulate=260, depth=19)
+        s2 = export("PlayerRegistryImpl_sched2.cfg", "tlc-locked", simulate=160, depth=19)
         exhaustive2 = False
     else:
         s2 = export("PlayerRegistryImpl_sched2.cfg", "tlc-locked", limit=8000)
         exhaustive2 = True
-    s2u = export("PlayerRegistryImpl_sched2u.cfg", "tlc-unlocked", simulate=ctx.pick(60, 1200), depth=19)
-    s3 = export("PlayerRegistryImpl_sched3.cfg", "tlc-locked", simulate=ctx.pick(120, 3000), depth=28)
+    s2u = export("PlayerRegistryImpl_sched2u.cfg", "tlc-unlocked", simulate=ctx.pick(40, 1200), depth=19)
+    s3 = export("PlayerRegistryImpl_sched3.cfg", "tlc-locked", simulate=ctx.pick(80, 3000), depth=28)
     s3u = [] if ctx.quick else export("PlayerRegistryImpl_sched3u.cfg", "tlc-unlocked", simulate=400, depth=28)
     scheds = s2 + s2u + s3 + s3u
     ctx.log("schedules: %d two-connection%s + %d lock-ignoring + %d three-connection + %d lock-ignoring"
@@ -124,7 +125,7 @@ def run(ctx):
 
     race = not ctx.quick
     ctx.harness("./c11", "TestSchedules", race=race, timeout=2400,
-                env={"VERIF_RANDOM": ctx.pick(60, 1500), "VERIF_FREE": ctx.pick(40, 1500)})
+                env={"VERIF_RANDOM": ctx.pick(40, 1500), "VERIF_FREE": ctx.pick(30, 1500)})
     stats = json.load(open(ctx.path("stats.json")))
     missing = [g for g in GATES if not stats["gate_arrivals"].get(g)]
     if missing:
